@@ -113,12 +113,29 @@ pub fn read_payloads(dir: &Path) -> Result<Vec<Vec<u8>>, String> {
 
 /// Build a *foreign* index (same schema) in `dir` whose documents answer the
 /// given phrases with poisoned payloads.
-pub fn build_foreign(dir: &Path, docs: &[(Vec<String>, Vec<u8>)]) -> Result<(), String> {
+/// The layout another release might have used: same field names, but `name`
+/// indexed as whole lower-cased words (tantivy's default tokenizer) without
+/// positions instead of prefix n-grams.
+fn schema_words() -> Schema {
+    let text_field_indexing = TextFieldIndexing::default()
+        .set_tokenizer("default")
+        .set_index_option(IndexRecordOption::WithFreqs);
+    let text_options = TextOptions::default()
+        .set_indexing_options(text_field_indexing)
+        .set_stored();
+    let mut schema = Schema::builder();
+    schema.add_bytes_field("data", STORED);
+    schema.add_text_field("name", text_options);
+    schema.build()
+}
+
+pub fn build_foreign(dir: &Path, docs: &[(Vec<String>, Vec<u8>)], words_layout: bool) -> Result<(), String> {
     if dir.is_dir() {
         std::fs::remove_dir_all(dir).map_err(|e| e.to_string())?;
     }
     std::fs::create_dir_all(dir).map_err(|e| e.to_string())?;
-    let index = Index::create_in_dir(dir, schema()).map_err(|e| format!("create: {e}"))?;
+    let schema = if words_layout { schema_words() } else { schema() };
+    let index = Index::create_in_dir(dir, schema).map_err(|e| format!("create: {e}"))?;
     let tokenizer = TextAnalyzer::from(NgramTokenizer::new(1, 7, true)).filter(LowerCaser);
     index.tokenizers().register("ngram", tokenizer);
     let s = index.schema();
